@@ -234,13 +234,14 @@ Section ArcView.
         rewrite Eint.
         split; [simpl; rewrite app_length; simpl; lia|]. split; [reflexivity|].
         split; [apply last_wrap|].
-        split.
+        assert (Hn0 : ~ In O (csof r)).
+        { intros H0. pose proof (Hin_cs r O Hr H0). lia. }
+        assert (Hnd : NoDup (csof r)).
         { apply (NoDup_count_occ Nat.eq_dec). intros c. pose proof (proj1 (Hcount c)) as Hle.
           apply in_split in Hr. destruct Hr as (l1 & l2 & E). unfold css in Hle.
           rewrite E, map_app, concat_app in Hle. cbn [map concat] in Hle. rewrite !count_occ_app in Hle. lia. }
-        split.
-        { intros H0. pose proof (Hin_cs r O Hr H0). lia. }
-        split; [exact Ha|]. split; [exact Ht|apply Hcap].
+        split; [exact Hnd|]. split; [exact Hn0|].
+        split; [exact Ha|]. split; [exact Ht|apply Hcap; assumption].
       - cbn [route_cost]. rewrite <- arc_route_cost, Hcost, sumz_sumZ. f_equal. apply map_ext.
         intros m. unfold Arc_facts.move_cost. rewrite Hg. reflexivity. }
     exists routes. split; [exact Hperm|]. split; [apply Forall_forall; exact Hsr|].
